@@ -14,7 +14,8 @@ CLAUSES = {
 }
 DEATH = {"panic", "abort", "hang"}
 
-DEVS = ["silent_cancel_drop", "join_no_recheck", "cancel_skip_unsettled", "stop_timeout_ok", "keepalive_precedence"]
+DEVS = ["silent_cancel_drop", "join_no_recheck", "cancel_skip_unsettled", "stop_timeout_ok", "keepalive_precedence",
+        "drop_undoes_cancel", "abandoned_stays_running"]
 
 
 def cfg(nt, nw, mx, mn, ms, ops, waiters, view):
@@ -59,6 +60,26 @@ def seeded(rng, pid):
             hist.append({"a": "body", "t": t, "step": "finish"})
         hist += [{"a": "pass"}, {"a": "pass"}]
         return {"nt": nt, "max": 1, "min": 0, "hist": hist, "outcomes": {}, "prios": prios, "order": True, "src": "priority-batch"}
+    if pid == "C13" and rng.random() < 0.3:
+        # join handles that are dropped (CoPool.tla, Abandon): JoinHandle::try_cancel(self) drops the handle right after the
+        # cancel; a handle may also be dropped before its task has finished and the task be cancelled much later
+        shape = rng.choice(["cancel-then-drop", "drop-then-late-cancel", "drop-then-late-cancel"])
+        if shape == "cancel-then-drop":
+            nt = rng.choice([2, 3])
+            v = rng.randint(1, nt)
+            hist, outcomes = [], {}
+            for t in range(1, nt + 1):
+                outcomes[str(t)] = "ok"
+                hist.append({"a": "submit", "t": t})
+                hist.append({"a": "body", "t": t, "step": "finish"})
+            hist += [{"a": "cancel", "t": v}, {"a": "abandon", "t": v}, {"a": "pass"}, {"a": "pass"}]
+            return {"nt": nt, "max": rng.choice([1, 2]), "min": 0, "hist": hist, "outcomes": outcomes, "prios": {}, "order": False, "src": shape}
+        # one worker: task 1 (handle dropped before it ends) finishes, the same worker goes on with task 2, which is
+        # parked in a 40 ms delay when the late cancel of task 1 arrives
+        hist = [{"a": "submit", "t": 1}, {"a": "body", "t": 1, "step": rng.choice(["suspend", "finish"])}, {"a": "body", "t": 1, "step": "finish"},
+                {"a": "submit", "t": 2}, {"a": "body", "t": 2, "step": "long_delay"}, {"a": "body", "t": 2, "step": "finish"},
+                {"a": "abandon", "t": 1}, {"a": "pass", "ms": 15}, {"a": "cancel", "t": 1}, {"a": "pass"}, {"a": "tick"}, {"a": "pass"}]
+        return {"nt": 2, "max": 1, "min": 0, "hist": hist, "outcomes": {"1": "ok", "2": "ok"}, "prios": {}, "order": False, "src": shape}
     if pid == "C11" and rng.random() < 0.25:
         # a positive keep-alive time (CoPool.tla, KeepAlive = TRUE): several workers are created (every task yields
         # once), the work completes, and the pool is stopped long before the workers' keep-alive time has passed.
@@ -136,7 +157,7 @@ def run(pid, tier):
     wd = workdir(pid)
     cov = {}
     bindir = build_harness()
-    insts = [("MC_CoPool.cfg", None), ("MC_CoPool_keepalive.cfg", None)] + [("MC_CoPool_%s.cfg" % d, "any") for d in DEVS]
+    insts = [("MC_CoPool.cfg", None), ("MC_CoPool_keepalive.cfg", None), ("MC_CoPool_abandon.cfg", None)] + [("MC_CoPool_%s.cfg" % d, "any") for d in DEVS]
     if tier == "thorough":
         insts.append(("MC_CoPool_big.cfg", None))
     mc_runs("CoPool", insts, tier, cov)
@@ -171,6 +192,14 @@ def stage(pid, tier, v, cov, wd, bindir):
     if len(hs) > cap:
         hs = rng.sample(hs, cap)
     scs += [{"nt": 2, "max": 2, "min": 0, "hist": h, "src": "tlc-final-states"} for h in hs]
+    if pid == "C13":
+        # histories with dropped join handles (Abandon) and late cancels: task 2 has no waiter thread
+        hs, _ = tlc_replays("CoPool", cfg(2, 3, 2, 0, 1, 6 if thorough else 5, [1], True), "abandon")
+        hs = [h for h in hs if any(x.get("a") == "abandon" for x in h)]
+        cov["tlc_abandon_histories"] = len(hs)
+        if len(hs) > cap:
+            hs = rng.sample(hs, cap)
+        scs += [{"nt": 2, "max": 2, "min": 0, "hist": h, "src": "tlc-final-states-abandon"} for h in hs]
     for i, (nt, nw, mx, mn, ms, d, ws) in enumerate([(3, 4, 2, 0, 2, 12, [1, 3]), (3, 3, 1, 0, 1, 12, [2]), (2, 3, 2, 0, 2, 10, [1])]):
         hs, _ = tlc_replays("CoPool", cfg(nt, nw, mx, mn, ms, d, ws, False), "sim%d" % i, simulate=(300 if thorough else 60),
                             depth=80, sd=seed() + i)
